@@ -198,6 +198,24 @@ def isIntegerTy : MTy → Bool
   | .scalar n => n ∈ ["Integer", "SecretInteger", "UnsignedInteger", "SecretUnsignedInteger"]
   | _ => false
 
+/-- `nada_fn`: one `NadaFunctionArg` per parameter, left to right — the template (a literal-typed parameter
+builds a real literal first), then the argument's id, then its record. Returns the (id, template) pairs
+and the values bound to the parameter registers. -/
+def bindParams (fid : Id) : List (String × Ann) → M (List (Id × Val) × List RVal)
+  | [] => pure ([], [])
+  | (pname, ann) :: rest => do
+    let tmpl ← template ann
+    let p ← alloc
+    let ty ← liftE tmpl.toMir
+    put p (.argRef pname fid ty)
+    let (ps, bound) ← bindParams fid rest
+    pure ((p, tmpl) :: ps, .val (tmpl.withChild p) :: bound)
+
+/-- `Array.__init__`: the size must be a positive integer (and is required when an array is built from a value) -/
+def sizeRejected : Option Int → Bool
+  | some n => decide (n < 1)
+  | none => true
+
 /-- Execute one command. Returns the values bound to the new registers and the new frame stack. -/
 def exec (regs : List RVal) (frames : List Frame) (c : Cmd) : M (List RVal × List Frame) := do
   let one (v : Val) : M (List RVal × List Frame) := pure ([.val v], frames)
@@ -221,7 +239,7 @@ def exec (regs : List RVal) (frames : List Frame) (c : Cmd) : M (List RVal × Li
     | _ => throw .unsupported
   | .arrayOf r size => do
     -- `Array.__init__`: the size must be a positive integer (and is required on this path)
-    if (match size with | some n => decide (n < 1) | none => true) then throw .value else
+    if sizeRejected size then throw .value else
     let v ← getVal regs r
     let c ← childOf v
     let arr := Val.array (.inst v) size (some c)
@@ -393,15 +411,7 @@ def exec (regs : List RVal) (frames : List Frame) (c : Cmd) : M (List RVal × Li
     | _, _ => throw .unsupported
   | .beginFn name params => do
     let fid ← alloc
-    let mut ps : List (Id × Val) := []
-    let mut bound : List RVal := []
-    for (pname, ann) in params do
-      let tmpl ← template ann
-      let p ← alloc
-      let ty ← liftE tmpl.toMir
-      put p (.argRef pname fid ty)
-      ps := ps ++ [(p, tmpl)]
-      bound := bound ++ [.val (tmpl.withChild p)]
+    let (ps, bound) ← bindParams fid params
     pure (bound, { fid := fid, name := name, params := ps, pnames := params.map (·.1) } :: frames)
   | .endFn ret retAnn =>
     match frames with
